@@ -154,6 +154,8 @@ def oracle(line, impl_line):
                 return "a finished/failed parser did not stay finished or emitted output again: %s" % again
         if not done and o[0][2] == 0:
             return "unfinished parser offers an empty input buffer without reporting StuckOnInput"
+        if not done and len(o) > 1 and o[1] == [1]:
+            return "a conversion (into_request) was accepted although parse() had not reported the request as done: conversions at non-final states must be refused"
         return True
     if mode == "str_run":
         # after a fatal error every later parse reports it again with no further output
